@@ -216,3 +216,16 @@ class Sub(object):
 
     def __call__(self, name):
         return self.fn(name)
+
+
+def choose(mk, name, n):
+    """a symbolic choice among n alternatives: the index is a symbolic variable; the explorer forks on (index == k) and the
+    solver decides which alternatives are feasible -- every alternative becomes its own path.  Replay: the float index."""
+    v = mk(name)
+    if isinstance(v, SymReal):
+        from symx.engine import PathAbort
+        for k in range(n):
+            if bool(v == k):
+                return k
+        raise PathAbort()
+    return int(round(float(v))) % n
